@@ -7,7 +7,7 @@ use egv::*;
 use embedded_graphics::{
     image::{GetPixel, ImageRaw},
     mono_font::{
-        mapping::{self, GlyphMapping, StrGlyphMapping},
+        mapping::{self, StrGlyphMapping},
         DecorationDimensions, MonoFont, MonoTextStyle, MonoTextStyleBuilder,
     },
     pixelcolor::{BinaryColor, Gray8},
